@@ -105,12 +105,14 @@ Fixpoint lines_af (s : hstate) (lines : list (list str)) : res hstate :=
 
 End Loop.
 
-(** readArgumentFile( name, reportMissing = true) at nesting depth [depth]: a
-    missing file is an error; a file that names itself exhausts the depth
-    ([Fault Fuel] - the real code recurses until the stack is exhausted) *)
+(** readArgumentFile( name, reportMissing = true) with [depth] further levels
+    of nesting allowed: a missing file is an error; more than 10 argument
+    files open at the same time are refused (after the repair "an argument
+    file that names itself no longer ends in a stack overflow"; the pinned
+    code recursed until the stack was exhausted) *)
 Fixpoint read_file (c : cfg) (af : afile) (depth : nat) (s : hstate) (name : str) : res hstate :=
   match depth with
-  | O => Fault Fuel
+  | O => Err ERuntime
   | S d =>
       match af_content (af_files af) name with
       | None => Err ERuntime
@@ -118,7 +120,7 @@ Fixpoint read_file (c : cfg) (af : afile) (depth : nat) (s : hstate) (name : str
       end
   end.
 
-Definition DEPTH : nat := 8.
+Definition DEPTH : nat := 10.
 
 (** Handler::evalArguments with an argument-file argument: program argument
     file, environment variable, command line *)
@@ -126,7 +128,8 @@ Definition eval_arguments_af (c : cfg) (af : afile) (inits : list value) (file_l
     (env_words : option (list str)) (argv : list str) : res hstate :=
   let sub := read_file c af DEPTH in
   let s0 := init_state c inits in
-  do s1 <- lines_af c af sub s0 file_lines;
+  (* the program's own argument file is the first level of nesting *)
+  do s1 <- lines_af c af (read_file c af (DEPTH - 1)) s0 file_lines;
   do s2 <- (match env_words with Some ws => words_af c af sub s1 true ws | None => Ok s1 end);
   do s3 <- words_af c af sub s2 false argv;
   do _ <- final_checks c s3;
